@@ -122,10 +122,16 @@ def random_call(rnd, c, step=0, kinds=None):
         rnd.shuffle(p)
         return dict(kind=k, labels=p)
     if k == "order_inputs":
-        return dict(kind=k, labels=rnd.sample(list(c.inputs), rnd.randint(0, len(c.inputs))))
+        labels = rnd.sample(list(c.inputs), rnd.randint(0, len(c.inputs)))
+        if labels and rnd.random() < 0.25:
+            labels.insert(rnd.randrange(len(labels) + 1), rnd.choice(labels))  # a label asked for twice: documented error, or a valid order
+        return dict(kind=k, labels=labels)
     if k == "order_outputs":
         outs = list(c.outputs)
-        return dict(kind=k, labels=rnd.sample(outs, rnd.randint(0, len(outs))))
+        labels = rnd.sample(outs, rnd.randint(0, len(outs)))
+        if labels and rnd.random() < 0.25:
+            labels.insert(rnd.randrange(len(labels) + 1), rnd.choice(labels))
+        return dict(kind=k, labels=labels)
     if k == "add_inputs":
         return dict(kind=k, labels=[f"{fresh}_{i}" for i in range(rnd.randint(0, 2))])
     if k == "replace_inputs":
